@@ -88,7 +88,10 @@ impl HL {
     fn with_unsafe(&mut self) { unsafe { self.cap = 1; } }
     fn with_index(&self, i: usize) -> Ptr { self.entries[i] }
     fn with_generic<T>(&self, t: T) -> bool { true }
-    fn with_ref(&self, p: &Ptr) -> bool { true }
+    fn with_ref(&self, p: &Ptr) -> bool { p == p }
+    fn with_mut_ref(&self, p: &mut Ptr) -> bool { true }
+    fn unsafe_stmts(&mut self) { unsafe { self.cap = 1; self.cap = 2; } }
+    fn unsafe_expr(&mut self) { unsafe { self.cap = 1 } }
     fn with_unknown(&self, s: Other) -> bool { true }
     fn with_call(&mut self) { self.entries.clear(); }
     fn with_pop(&mut self) -> Option<Ptr> { self.entries.pop() }
@@ -282,7 +285,6 @@ fn nested_match_is_parenthesised() {
 fn rejections() {
     rejected("nope", "function `HL::nope` not found");
     rejected("room", "no field `is_full_field`");
-    rejected("partial", "returns on some paths only");
     rejected("with_mut", "`let` pattern");
     rejected("with_loop", "outside the supported subset");
     rejected("with_wild", "match pattern");
@@ -290,7 +292,8 @@ fn rejections() {
     rejected("with_unsafe", "outside the supported subset");
     rejected("with_index", "outside the supported subset: expression `self.entries[i]`");
     rejected("with_generic", "generic function");
-    rejected("with_ref", "outside the supported subset: type `&Ptr`");
+    rejected("with_mut_ref", "outside the supported subset: type `&mut Ptr`");
+    rejected("unsafe_stmts", "`unsafe` block with statements");
     rejected("with_unknown", "no Lean type given for the Rust type `Other`");
     rejected("with_call", "Vec method as a statement");
     rejected("with_pop", "method call used as a value");
@@ -317,4 +320,476 @@ fn error_messages_carry_file_line_and_function() {
     let e = translate(HL, &opts(&["with_loop"])).unwrap_err().0;
     let line = 1 + HL.lines().position(|l| l.contains("fn with_loop")).unwrap();
     assert!(e.starts_with(&format!("t.rs:{line}: fn with_loop:")), "{e}");
+}
+
+#[test]
+fn return_on_some_paths_takes_the_rest_of_the_block_along() {
+    assert_eq!(
+        body_of(&translate(HL, &opts(&["partial"])).unwrap(), "«partial»"),
+        "def «partial» (self : HL ρ) (x : Nat) : HL ρ × Bool :=
+  if x < 3 then
+    if x < 1 then
+      (self, true)
+    else
+      let self := { self with cap := 1 }
+      (self, false)
+  else
+    (self, false)"
+    );
+}
+
+#[test]
+fn shared_reference_parameter_and_transparent_unsafe() {
+    assert_eq!(ok("with_ref"), "def with_ref [DecidableEq ρ] (self : HL ρ) (p : ρ) : Bool :=\n  decide (p = p)");
+    assert_eq!(ok("unsafe_expr"), "def unsafe_expr (self : HL ρ) : HL ρ :=\n  { self with cap := 1 }");
+    let out = translate(HL, &opts(&["with_ref", "unsafe_expr"])).unwrap();
+    assert!(out.contains("`p: &Ptr` (fn with_ref): a shared reference is the value it points to"), "{out}");
+    assert!(out.contains("`unsafe { self.cap = 1 }`"), "{out}");
+}
+
+// ------------------------------------------------------------------------------------------------ slot-map shaped code
+
+const SM: &str = r#"
+pub(crate) struct SM<T> { slots: Vec<Slot<T>>, next_free: u32, len: u32 }
+struct Slot<T> { union: SlotUnion<T>, generation: u32 }
+union SlotUnion<T> { value: ManuallyDrop<T>, next_free: u32 }
+pub(crate) struct Key { n: NonZeroU64 }
+pub(crate) struct It<T> { index: u32, _marker: PhantomData<fn() -> T> }
+impl<T> Slot<T> {
+    const fn is_vacant(&self) -> bool { self.generation % 2 == 0 }
+}
+impl Key {
+    pub(crate) const fn new(index: u32, generation: u32) -> Option<Self> {
+        if generation % 2 == 1 { Some(unsafe { Self::new_unchecked(index, generation) }) } else { None }
+    }
+}
+impl<T> SM<T> {
+    pub(crate) fn insert_with<F>(&mut self, f: F) -> Option<Key>
+    where
+        F: FnOnce(Key) -> T,
+    {
+        let key;
+        if let Some(slot) = self.slots.get_mut(self.next_free as usize) {
+            debug_assert!(slot.is_vacant());
+            key = unsafe { Key::new(self.next_free, slot.generation + 1).unwrap_unchecked() };
+            let value = f(key);
+            slot.generation += 1;
+            self.next_free = unsafe { slot.union.next_free };
+            slot.union.value = ManuallyDrop::new(value);
+        } else {
+            let index = self.slots.len() as u32;
+            if index == u32::MAX {
+                return None;
+            }
+            key = Key::new(index, 1).unwrap();
+            let value = f(key);
+            self.slots.push(Slot { union: SlotUnion { value: ManuallyDrop::new(value) }, generation: 1 });
+        };
+        self.len += 1;
+        Some(key)
+    }
+    pub(crate) fn remove(&mut self, key: Key) -> Option<T> {
+        let slot = self.slots.get_mut(key.index() as usize)?;
+        if slot.generation != key.generation().get() {
+            return None;
+        }
+        slot.generation = slot.generation.wrapping_add(1);
+        let res = unsafe { ManuallyDrop::take(&mut slot.union.value) };
+        if slot.generation != 0 {
+            slot.union.next_free = self.next_free;
+            self.next_free = key.index();
+        }
+        self.len -= 1;
+        Some(res)
+    }
+    pub(crate) fn get(&self, key: Key) -> Option<&T> {
+        let slot = self.slots.get(key.index() as usize)?;
+        if slot.generation != key.generation().get() {
+            return None;
+        }
+        Some(unsafe { &slot.union.value })
+    }
+    pub(crate) fn get_by_index(&self, index: u32) -> Option<(Key, &T)> {
+        let slot = self.slots.get(index as usize)?;
+        if slot.is_vacant() {
+            return None;
+        }
+        let key = unsafe { Key::new_unchecked(index, slot.generation) };
+        let value = unsafe { &slot.union.value };
+        Some((key, value))
+    }
+    pub(crate) fn iter_at(&self) -> It<T> {
+        It { index: if self.next_free == u32::MAX { self.slots.len() as u32 } else { self.next_free }, _marker: PhantomData }
+    }
+    fn deferred_state(&mut self, x: u32) -> u32 {
+        let y;
+        if x < 3 { y = 1; self.len = 0; } else { y = x; }
+        y
+    }
+    fn deferred_partial(&mut self, x: u32) -> u32 {
+        let y;
+        if x < 3 { y = 1; } else { self.len = 0; }
+        7
+    }
+    fn assign_twice(&mut self) -> u32 { let y; y = 1; y = 2; y }
+    fn use_before_init(&self) -> u32 { let y; let z = y; y = 1; z }
+    fn try_in_nested(&mut self, i: usize) -> Option<u32> {
+        if i < 3 { let s = self.slots.get(i)?; self.len = s.generation; }
+        None
+    }
+    fn try_short_circuit(&self, i: usize) -> Option<bool> { Some(i < 3 && self.slots.get(i)?.generation == 0) }
+    fn try_no_option(&self, i: usize) -> u32 { self.slots.get(i)?.generation }
+    fn union_whole(&self, i: usize) -> Option<u32> { let s = self.slots.get(i)?; let u = s.union; None }
+    fn union_literal_no_default(&mut self) { self.slots.push(Slot { union: SlotUnion { next_free: 3 }, generation: 0 }); }
+    fn foreign_call(&self) -> u32 { helper(self.len) }
+    fn unknown_assoc(&self) -> Option<Key> { Key::from_raw(3) }
+    fn called_too_early(&self) -> bool { self.later() }
+    fn later(&self) -> bool { true }
+    fn panics(&mut self, x: u32) -> u32 {
+        if x == 0 { panic!("zero {}", x); }
+        self.len = x;
+        x
+    }
+    fn mod_by_var(&self, x: u32) -> u32 { self.len % x }
+    fn borrow_of_param(&self, v: u32) -> u32 { let r = &mut v; 1 }
+    fn two_effects(&mut self, i: usize) -> Option<u32> {
+        let a = mem::replace(&mut self.len, mem::replace(&mut self.next_free, 1));
+        Some(a)
+    }
+    fn write_after_borrow(&mut self, i: usize, j: usize) -> Option<u32> {
+        let s = self.slots.get_mut(i)?;
+        s.generation = 4;
+        let old = mem::replace(&mut s.generation, 5);
+        Some(old)
+    }
+    fn effect_order(&mut self) -> Option<u32> {
+        let a = self.len + mem::replace(&mut self.len, 1);
+        Some(a)
+    }
+    fn effect_in_cond(&mut self) -> Option<u32> {
+        if mem::replace(&mut self.len, 1) == 0 { return None; }
+        Some(1)
+    }
+    fn leaking_name(&mut self, x: u32) -> u32 {
+        let y = 1;
+        if x < 3 { let y = 2; if x < 1 { return y; } }
+        y
+    }
+    fn while_let(&mut self) { while let Some(s) = self.slots.get(0) { self.len = 1; } }
+    fn for_loop(&mut self) { for i in 0..self.len { self.len = 1; } }
+    fn closure_value(&self) -> u32 { let g = |x: u32| x; 1 }
+    fn generic_non_closure<G: Clone>(&self, g: G) -> u32 { 1 }
+}
+impl<T> It<T> {
+    pub(crate) fn next(&mut self, sm: &SM<T>) -> Option<Key> {
+        let key;
+        if let Some(slot) = sm.slots.get(self.index as usize) {
+            if slot.is_vacant() {
+                key = Some(unsafe { Key::new_unchecked(self.index, slot.generation + 1) });
+                let next_free = unsafe { slot.union.next_free };
+                if next_free == u32::MAX { self.index = sm.slots.len() as u32; } else { self.index = next_free; }
+            } else {
+                panic!("incorrect state for next key iter");
+            }
+        } else if self.index < u32::MAX {
+            key = Some(Key::new(self.index, 1).unwrap());
+            self.index += 1;
+        } else {
+            key = None;
+        }
+        key
+    }
+}
+"#;
+
+fn sm_opts(fns: &[&str]) -> Options {
+    let mut all: Vec<String> = vec!["Slot::is_vacant".into(), "Key::new".into()];
+    all.extend(fns.iter().map(|s| s.to_string()));
+    let p = |a: &str, b: &str| (a.to_string(), b.to_string());
+    Options {
+        impl_type: "SM".into(),
+        fns: all,
+        type_map: vec![p("SM", "SM α"), p("Slot", "Slot α"), p("Key", "Key"), p("T", "α")],
+        tyvars: vec!["α".into()],
+        structs: vec!["It".into()],
+        field_map: vec![p("SM.next_free", "nextFree"), p("Slot.generation", "gen"), p("Slot.union.next_free", "next"), p("Slot.union.value", "val")],
+        inactive: vec![p("SlotUnion.next_free", "4294967295")],
+        prims: vec![p("Key::new_unchecked(u32, u32) -> Key", "Key.mk"), p("Key::index(self) -> u32", "Key.idx"), p("Key::generation(self) -> NonZeroU32", "Key.gen")],
+        source_label: "sm.rs".into(),
+        ..Default::default()
+    }
+}
+
+fn sm_ok(f: &str) -> String {
+    let out = translate(SM, &sm_opts(&[f])).unwrap_or_else(|e| panic!("{f}: {e}"));
+    let name = f.replace("::", ".");
+    body_of(&out, &name)
+}
+
+fn sm_rejected(f: &str, needle: &str) {
+    match translate(SM, &sm_opts(&[f])) {
+        Ok(o) => panic!("{f} was translated:\n{o}"),
+        Err(e) => assert!(e.0.contains(needle), "{f}: message `{}` does not mention `{needle}`", e.0),
+    }
+}
+
+#[test]
+fn functions_of_other_impls_and_associated_functions() {
+    assert_eq!(sm_ok("Slot::is_vacant"), "def Slot.is_vacant (self : Slot α) : Bool :=\n  decide ((self.gen % 2) = 0)");
+    assert_eq!(
+        sm_ok("Key::new"),
+        "def Key.new (index : Nat) (generation : Nat) : Option Key :=
+  if (generation % 2) = 1 then
+    some (Key.mk index generation)
+  else
+    none"
+    );
+}
+
+#[test]
+fn mutable_borrow_of_a_vec_element_deferred_let_closure_union_literal() {
+    assert_eq!(
+        sm_ok("insert_with"),
+        "def insert_with (self : SM α) (f : Key → α) : SM α × (Option Key) :=
+  let at1 := self.nextFree
+  match vecGet self.slots at1 with
+  | some slot =>
+    let key := optUnwrap (Key.new self.nextFree (slot.gen + 1))
+    let value := f key
+    let slot := { slot with gen := slot.gen + 1 }
+    let self := { self with slots := vecSet self.slots at1 slot }
+    let self := { self with nextFree := slot.next }
+    let slot := { slot with val := some value }
+    let self := { self with slots := vecSet self.slots at1 slot }
+    let self := { self with len := self.len + 1 }
+    (self, some key)
+  | none =>
+    let index := vecLen self.slots
+    if index = 4294967295 then
+      (self, none)
+    else
+      let key := optUnwrap (Key.new index 1)
+      let value := f key
+      let self := { self with slots := vecPush self.slots ({ val := some value, next := 4294967295, gen := 1 } : Slot α) }
+      let self := { self with len := self.len + 1 }
+      (self, some key)"
+    );
+}
+
+#[test]
+fn question_mark_cell_take_wrapping_add_and_state_tuple() {
+    assert_eq!(
+        sm_ok("remove"),
+        "def remove (self : SM α) (key : Key) : SM α × (Option α) :=
+  let at1 := Key.idx key
+  match vecGet self.slots at1 with
+  | none => (self, none)
+  | some slot =>
+    if slot.gen ≠ (Key.gen key) then
+      (self, none)
+    else
+      let slot := { slot with gen := (slot.gen + 1) % 4294967296 }
+      let self := { self with slots := vecSet self.slots at1 slot }
+      (match slot.val with
+      | none => (self, none)
+      | some res =>
+        let slot := { slot with val := none }
+        let self := { self with slots := vecSet self.slots at1 slot }
+        let (self, slot) :=
+          if slot.gen ≠ 0 then
+            let slot := { slot with next := self.nextFree }
+            let self := { self with slots := vecSet self.slots at1 slot }
+            let self := { self with nextFree := Key.idx key }
+            (self, slot)
+          else (self, slot)
+        let self := { self with len := self.len - 1 }
+        (self, some res))"
+    );
+    let out = translate(SM, &sm_opts(&["remove"])).unwrap();
+    assert!(out.contains("set_option linter.unusedVariables false"), "{out}");
+}
+
+#[test]
+fn cell_reads_tuples_and_if_as_an_operand() {
+    assert_eq!(
+        sm_ok("get"),
+        "def get (self : SM α) (key : Key) : Option α :=
+  match vecGet self.slots (Key.idx key) with
+  | none => none
+  | some slot =>
+    if slot.gen ≠ (Key.gen key) then
+      none
+    else
+      (match slot.val with
+      | none => none
+      | some v1 =>
+        some v1)"
+    );
+    assert_eq!(
+        sm_ok("get_by_index"),
+        "def get_by_index (self : SM α) (index : Nat) : Option (Key × α) :=
+  match vecGet self.slots index with
+  | none => none
+  | some slot =>
+    if (Slot.is_vacant slot) = true then
+      none
+    else
+      let key := Key.mk index slot.gen
+      (match slot.val with
+      | none => none
+      | some value =>
+        some (key, value))"
+    );
+    assert_eq!(
+        sm_ok("iter_at"),
+        "def iter_at (self : SM α) : It :=\n  ({ index := if self.nextFree = 4294967295 then vecLen self.slots else self.nextFree } : It)"
+    );
+}
+
+#[test]
+fn panic_gives_an_outcome_and_the_rest_of_the_block_moves_into_the_branches() {
+    assert_eq!(
+        sm_ok("It::next"),
+        "def It.next (self : It) (sm : SM α) : Outcome (It × (Option Key)) :=
+  match vecGet sm.slots self.index with
+  | some slot =>
+    if (Slot.is_vacant slot) = true then
+      let key := some (Key.mk self.index (slot.gen + 1))
+      let next_free := slot.next
+      let self :=
+        if next_free = 4294967295 then
+          { self with index := vecLen sm.slots }
+        else
+          { self with index := next_free }
+      .ok (self, key)
+    else
+      .panic \"incorrect state for next key iter\"
+  | none =>
+    let (self, key) :=
+      if self.index < 4294967295 then
+        let key := some (optUnwrap (Key.new self.index 1))
+        let self := { self with index := self.index + 1 }
+        (self, key)
+      else
+        let key := none
+        (self, key)
+    .ok (self, key)"
+    );
+    assert_eq!(
+        sm_ok("panics"),
+        "def panics (self : SM α) (x : Nat) : Outcome (SM α × Nat) :=
+  if x = 0 then
+    .panic \"zero {}\"
+  else
+    let self := { self with len := x }
+    .ok (self, x)"
+    );
+}
+
+#[test]
+fn deferred_initialisation_in_a_statement_is_part_of_its_state() {
+    assert_eq!(
+        sm_ok("deferred_state"),
+        "def deferred_state (self : SM α) (x : Nat) : SM α × Nat :=
+  let (self, y) :=
+    if x < 3 then
+      let y := 1
+      let self := { self with len := 0 }
+      (self, y)
+    else
+      let y := x
+      (self, y)
+  (self, y)"
+    );
+}
+
+#[test]
+fn struct_emission_and_header_of_the_slot_map_client() {
+    let out = translate(SM, &sm_opts(&["insert_with", "remove", "get", "It::next"])).unwrap();
+    assert!(out.contains("structure It where\n  index : Nat\n"), "{out}");
+    assert!(out.contains("`It._marker` (`PhantomData`) is dropped"), "{out}");
+    assert!(out.contains("`impl Slot`: is_vacant; `impl Key`: new; `impl SM`: insert_with, remove, get; `impl It`: next"), "{out}");
+    assert!(out.contains("`unsafe { ManuallyDrop::take(&mut slot.union.value) }`"), "{out}");
+    assert!(out.contains("`slot.union.next_free` (member `next_free` of the union `SlotUnion`)"), "{out}");
+    assert!(out.contains("the field of the inactive member `next_free` is set to `4294967295`"), "{out}");
+    assert!(out.contains("`ManuallyDrop::take(&mut slot.union.value)` of an empty cell"), "{out}");
+    assert!(out.contains("`Key::new(self.next_free, slot.generation + 1).unwrap_unchecked()` is undefined behaviour in Rust when the value is `None`"), "{out}");
+    assert!(out.contains("`Key::new(index, 1).unwrap()` panics in Rust"), "{out}");
+    assert!(out.contains("`slot.generation.wrapping_add(1)` on `u32` is arithmetic modulo 4294967296"), "{out}");
+    assert!(out.contains("`panic!(\"incorrect state for next key iter\");`"), "{out}");
+    assert!(out.contains("`Key::new_unchecked(u32, u32) -> Key` is taken as `Key.mk`"), "{out}");
+    assert!(out.contains("the type parameter `T` of `impl SM` is `α`"), "{out}");
+    assert!(out.contains("`f` (fn insert_with, `Key → α`) is a pure Lean function"), "{out}");
+    assert!(out.contains("`debug_assert!(slot.is_vacant())` (debug builds only)"), "{out}");
+    assert!(out.contains("`Slot.union.value` is the field `val`"), "{out}");
+    // a note is listed once even when the statement is copied into several branches
+    assert_eq!(out.matches("`self.len += 1`").count(), 1, "{out}");
+}
+
+#[test]
+fn slot_map_rejections() {
+    sm_rejected("deferred_partial", "`y` is initialised in some branches of this statement only");
+    sm_rejected("assign_twice", "second assignment to a variable");
+    sm_rejected("use_before_init", "before its deferred initialisation");
+    sm_rejected("try_in_nested", "early exit to `None` inside a nested statement block");
+    sm_rejected("try_short_circuit", "inside a conditionally evaluated operand");
+    sm_rejected("try_no_option", "in a function that does not return an `Option`");
+    sm_rejected("union_whole", "a union as a whole");
+    sm_rejected("union_literal_no_default", "use --inactive SlotUnion.value=");
+    sm_rejected("foreign_call", "outside the supported subset: function call `helper(self.len)`");
+    sm_rejected("unknown_assoc", "call of `Key::from_raw`, which is neither translated earlier in this run nor given by --prim");
+    sm_rejected("called_too_early", "neither translated earlier");
+    sm_rejected("mod_by_var", "`%` by something that is not a non-zero literal");
+    sm_rejected("borrow_of_param", "`&mut`");
+    sm_rejected("two_effects", "second effect in one statement");
+    sm_rejected("effect_order", "reads `self` elsewhere too (evaluation order)");
+    sm_rejected("effect_in_cond", "effect in a condition");
+    sm_rejected("leaking_name", "the branch binds `y`");
+    sm_rejected("while_let", "outside the supported subset");
+    sm_rejected("for_loop", "outside the supported subset");
+    sm_rejected("closure_value", "outside the supported subset");
+    sm_rejected("generic_non_closure", "generic function");
+    // the messages carry file, line and function
+    let e = translate(SM, &sm_opts(&["union_whole"])).unwrap_err().0;
+    let line = 1 + SM.lines().position(|l| l.contains("fn union_whole")).unwrap();
+    assert!(e.starts_with(&format!("sm.rs:{line}: fn union_whole:")), "{e}");
+}
+
+#[test]
+fn effects_inside_an_expression_are_hoisted_in_order() {
+    assert_eq!(
+        sm_ok("write_after_borrow"),
+        "def write_after_borrow (self : SM α) (i : Nat) (j : Nat) : SM α × (Option Nat) :=
+  let at1 := i
+  match vecGet self.slots at1 with
+  | none => (self, none)
+  | some s =>
+    let s := { s with gen := 4 }
+    let self := { self with slots := vecSet self.slots at1 s }
+    let old1 := s.gen
+    let s := { s with gen := 5 }
+    let self := { self with slots := vecSet self.slots at1 s }
+    let old := old1
+    (self, some old)"
+    );
+}
+
+#[test]
+fn options_of_the_slot_map_client_are_checked() {
+    // a generic impl whose parameter has no Lean type
+    let mut o = sm_opts(&["get"]);
+    o.type_map.retain(|(r, _)| r != "T");
+    assert!(translate(SM, &o).unwrap_err().0.contains("generic impl block for `Slot`"));
+    // a struct to emit that does not exist
+    let mut o = sm_opts(&["get"]);
+    o.structs.push("Nope".into());
+    assert!(translate(SM, &o).unwrap_err().0.contains("--struct Nope"));
+    // a malformed --prim
+    let mut o = sm_opts(&["get"]);
+    o.prims.push(("Key.index".into(), "x".into()));
+    assert!(translate(SM, &o).unwrap_err().0.contains("--prim `Key.index`: expected"));
+    // a function of a type without impl
+    let mut o = sm_opts(&["get"]);
+    o.fns.push("SlotUnion::f".into());
+    assert!(translate(SM, &o).unwrap_err().0.contains("function `SlotUnion::f` not found"));
 }
